@@ -4,7 +4,7 @@ Run from /verif/spec:  python3 mk_wc_cfgs.py"""
 BASE = dict(Bug='"none"', MaxSteps=5, MaxEditRun=3, Acts=None, EditPaths="AllEditPaths",
             Contents="{1, 2}", SymTargets='{"out"}', RootIgnore="{2, 3}", DirIgnore="{5}",
             TreeIds="{1, 3, 4, 8}", SparseIds="{1, 2, 3}", XP='"respect"', Strict="FALSE", Emit="FALSE")
-EDITS_ALL = ["Write", "Chmod", "Delete", "Mkfifo", "FileToDir", "DirToFile", "RmTree", "Symlink"]
+EDITS_ALL = ["Write", "Chmod", "Delete", "Mkfifo", "FileToDir", "DirToFile", "DirToSymlink", "RmTree", "Symlink"]
 
 
 def acts(names):
@@ -43,6 +43,8 @@ C23I = dict(Acts=acts(["Write", "Delete", "Mkfifo", "FileToDir", "DirToFile", "R
 write("c23_ignored", ALLINV, **C23I)
 write("c23_ignored_thorough", ALLINV, **dict(C23I, MaxSteps=7, Contents="{1, 2}"))
 write("neg_snap_tracked_nonfile", ["Inv_C23"], **dict(C23I, Bug='"snap-tracked-nonfile"'))
+write("finding_through_symlink", ["Inv_C23"], **dict(C23I, Strict="TRUE", TreeIds="{12}", MaxSteps=3, EditPaths="DirPaths",
+                                                   SymTargets='{"out/x"}', Acts=acts(["DirToSymlink", "Snapshot", "CheckOut"])))
 write("finding_notdir", ["Inv_C23"], **dict(C23I, Strict="TRUE", TreeIds="{12}", MaxSteps=3,
                                           Acts=acts(["DirToFile", "Mkfifo", "Snapshot", "CheckOut"])))
 write("c23_thorough", ALLINV, **dict(C23, MaxSteps=5, RootIgnore="{1, 2, 3, 4}", DirIgnore="{5, 6}"))
@@ -70,6 +72,13 @@ write("neg_co_keep_dirs", ["Inv_C24"], **dict(C24, Bug='"co-keep-dirs"'))
 C25 = dict(Acts=acts(["Write", "Symlink", "FileToDir", "DirToFile", "CheckOut"]), TreeIds="{1, 3, 4, 5, 6}",
            SparseIds="{}", RootIgnore="{}", DirIgnore="{}", MaxSteps=4, MaxEditRun=2, Contents="{2}")
 write("c25", ALLINV, **C25)
+# directories at any depth replaced by symlinks to the outside sentinel (same sub-paths), then
+# in-place modification / removal / addition check-outs of paths below them; exhaustive
+C25S = dict(Acts=acts(["DirToSymlink", "Symlink", "FileToDir", "CheckOut"]), TreeIds="{1, 3, 12, 13}", SparseIds="{}",
+            EditPaths="DirPaths", SymTargets='{"out", "out/x"}', RootIgnore="{}", DirIgnore="{}", MaxSteps=5, MaxEditRun=2)
+write("c25_symlink", ALLINV, **C25S)
+write("c25_symlink_thorough", ALLINV, **dict(C25S, MaxSteps=6, TreeIds="{1, 3, 5, 12, 13}"))
+write("neg_co_follow_ancestor_symlink", ["Inv_C25"], **dict(C25S, Bug='"co-follow-ancestor-symlink"'))
 write("c25_thorough", ALLINV, **dict(C25, MaxSteps=5, Contents="{1, 2}", RootIgnore="{2, 3}",
                                      Acts=acts(["Write", "Symlink", "FileToDir", "DirToFile", "Delete", "CheckOut", "Snapshot"])))
 write("neg_co_overwrite", ["Inv_C25"], **dict(C25, Bug='"co-overwrite"'))
@@ -89,7 +98,7 @@ write("finding_stale_state", ["Inv_C23"], **dict(C27, Strict="TRUE", MaxSteps=5,
                                                 Acts=acts(["Write", "CheckOut", "SetSparse", "Snapshot"]), EditPaths="SparseEditPaths"))
 
 # ---- generators (simulation; behaviours of 10 steps with a wide alphabet)
-GEN = dict(MaxSteps=10, MaxEditRun=3, SymTargets='{"out", "f"}', RootIgnore="{1, 2, 3, 4, 7}", DirIgnore="{3, 5, 6}",
+GEN = dict(MaxSteps=10, MaxEditRun=3, SymTargets='{"out", "f", "out/x"}', RootIgnore="{1, 2, 3, 4, 7}", DirIgnore="{3, 5, 6}",
            TreeIds="{1, 2, 3, 4, 5, 6, 7, 8, 9, 10, 11, 12, 13}", SparseIds="{1, 2, 3, 4, 5, 6}", Emit="TRUE")
 GI = ["EmitInv"]
 write("gen_c23_ignored", GI, view=False, **dict(GEN, Acts=acts(["Write", "Chmod", "Delete", "Mkfifo", "FileToDir", "DirToFile", "RmTree", "Snapshot", "CheckOut"]),
@@ -98,5 +107,8 @@ write("gen_c23", GI, view=False, **dict(GEN, Acts=acts(EDITS_ALL + ["Snapshot", 
 write("gen_c24", GI, view=False, **dict(GEN, Acts=acts(["CheckOut", "Snapshot", "SetSparse"]), MaxSteps=8))
 write("gen_c24_xignore", GI, view=False, **dict(GEN, Acts=acts(["CheckOut", "Snapshot", "SetSparse", "Chmod"]), MaxSteps=8, XP='"ignore"'))
 write("gen_c25", GI, view=False, **dict(GEN, Acts=acts(EDITS_ALL + ["CheckOut", "Snapshot"]), MaxEditRun=2))
+write("gen_c25_symlink", GI, view=False, **dict(GEN, Acts=acts(["DirToSymlink", "Symlink", "FileToDir", "Write", "CheckOut", "Snapshot"]),
+                                               TreeIds="{1, 3, 5, 12, 13}", EditPaths="DirPaths", SymTargets='{"out", "out/x"}',
+                                               MaxSteps=8, MaxEditRun=2))
 write("gen_c27", GI, view=False, **dict(GEN, Acts=acts(["Write", "Delete", "DirToFile", "FileToDir", "CheckOut", "SetSparse", "Snapshot"]), MaxEditRun=2))
 write("gen_all", GI, view=False, **dict(GEN, Acts=acts(EDITS_ALL + ["CheckOut", "SetSparse", "Snapshot"])))
